@@ -176,7 +176,35 @@ class C10Bounded(Bounded):
                     if ev(e1, env) != ev(e2, env):
                         fail(f"condition:{t}", f"extended condition {c!r} is rendered as {text!r}, which the target reads as a different boolean function (e.g. under {[a for a, b in env.items() if b]})", [corr])
                         break
+        # several correlation rules on ONE backend object: each query is what the rule gives alone on a fresh backend (aliases, group-by and
+        # conditions of one correlation rule do not leak into the next one that refers to the same rules)
+        multi = [{"title": "A", "name": "ca", "correlation": {"type": "event_count", "rules": [REF["n"], REF["m"]], "timespan": "5m", "group-by": ["who"], "aliases": {"who": {REF["n"]: "User", REF["m"]: "Account"}}, "condition": {"gte": 2}}},
+                 {"title": "B", "name": "cb", "correlation": {"type": "value_count", "rules": [REF["n"], REF["m"]], "timespan": "1h", "group-by": ["src"], "aliases": {"src": {REF["n"]: "SourceIp", REF["m"]: "ClientAddress"}}, "condition": {"gt": 5, "field": "val"}}},
+                 {"title": "C", "name": "cc", "correlation": {"type": "temporal", "rules": [REF["m"], REF["n"]], "timespan": "30s", "group-by": ["who", "host"], "aliases": {"who": {REF["n"]: "u1", REF["m"]: "u2"}, "host": {REF["n"]: "h1", REF["m"]: "h2"}}}},
+                 {"title": "D", "name": "cd", "correlation": {"type": "event_count", "rules": [REF["n"], REF["m"]], "timespan": "2h", "group-by": ["User"], "condition": {"lt": 3}}}]
+        basedocs = [copy.deepcopy(BASE[k]) for k in ("n", "m", "p", "q")]
+        for d in basedocs:
+            d.pop("id", None) if False else None
+
+        def corr_queries(cdocs, backend):
+            col = SigmaCollection.from_dicts([copy.deepcopy(x) for x in basedocs] + [copy.deepcopy(x) for x in cdocs])
+            out = backend.convert(col)
+            return [str(q) for q in out[-len(cdocs):]]
+        try:
+            alone = {d["name"]: corr_queries([d], TextQueryTestBackend())[0] for d in multi}
+            for perm in itertools.permutations(multi):
+                ev_n += 1
+                nontriv += 1
+                b = TextQueryTestBackend()
+                together = corr_queries(list(perm), b)
+                again = [corr_queries([d], b)[0] for d in perm]          # and once more, one after the other, on the same backend object
+                for d, q1, q2 in zip(perm, together, again):
+                    for how, q in (("in one collection", q1), ("converted one after the other", q2)):
+                        if q != alone[d["name"]]:
+                            fail("history", f"correlation rule {d['title']} {how} on one backend in the order {[x['title'] for x in perm]} gives {q!r}, alone on a fresh backend {alone[d['name']]!r}", [[x["title"] for x in perm], d["title"], how])
+        except SigmaError as e:
+            fail("history-error", f"several correlation rules on one backend: {type(e).__name__}: {e}", ["multi"])
         return {"evaluations": ev_n, "distinct_nontrivial": nontriv, "failures": fails[:20], "failure_counts": seen,
-                "bound": f"{len(docs)} correlation rules: 8 types x rule lists (1..3 rules, referenced by name and by id, single and multi-query rules) x group-by (none, 1, 2 fields incl. one needing quotes) x 4 timespan units x 6 operators "
+                "bound": f"all 24 orders of 4 correlation rules with different aliases over the same referenced rules on one backend object; {len(docs)} correlation rules: 8 types x rule lists (1..3 rules, referenced by name and by id, single and multi-query rules) x group-by (none, 1, 2 fields incl. one needing quotes) x 4 timespan units x 6 operators "
                          f"(counts incl. 0) x aliases; 16 extended conditions x 2 group-by settings compared as boolean functions",
                 "rule": "distinct correlation rules; non-trivial = converted", "samples": samples, "exhaustive": True}
